@@ -415,17 +415,23 @@ func runArrayProgram(e *arrEnv, nOps, sizeProf, posProf, opProf int) {
 			// a request that must be rejected: index past the end
 			k := e.rng.Intn(4)
 			i := uint64(n + 1 + e.rng.Intn(3))
+			// every second rejected write carries a value too large to inline: a request that is
+			// refused must not have allocated a slab for its value first
+			badProf := sizeProf
+			if e.rng.Intn(2) == 0 {
+				badProf = 3
+			}
 			var err error
 			switch k {
 			case 0:
 				w.L("OP get h=0 i=%d", i-1)
 				_, err = e.arr.Get(i - 1)
 			case 1:
-				v := e.genValue(sizeProf)
+				v := e.genValue(badProf)
 				w.L("OP set h=0 i=%d v=%d:%d", i-1, v.Size, v.Pay)
 				_, err = e.arr.Set(i-1, v)
 			case 2:
-				v := e.genValue(sizeProf)
+				v := e.genValue(badProf)
 				w.L("OP ins h=0 i=%d v=%d:%d", i, v.Size, v.Pay)
 				err = e.arr.Insert(i, v)
 			default:
